@@ -547,6 +547,8 @@ func RunC13(c *Ctx, r *Report) {
 	if w := c.slotWorld(r, prefix); w != nil {
 		w.lengthGuardRuleIn(r, prefix+"decode.length-guards", fn, 1)
 	}
+	// whether a chain is accepted does not depend on what an earlier decode left in the message object
+	c.decodeInputOnlyRule(r, prefix+"decode.input-only", c.DecodeScope(r, prefix))
 	cases, _ := c.bijectionRule(r, prefix+"dispatch-bijection", fn, "message", "IKEPayload", "Type", 16)
 	if cases == nil {
 		return
